@@ -102,7 +102,7 @@ theorem select_eq (v : String) (ws : List Word) (b : Node) (rs : List Redir) (cw
 theorem casePats_acts (pats : List CasePat) (cwd : String) (r : Bool) :
     acts (aCasePats w rec h pats cwd r)
       = pats.flatMap fun p => match p with
-          | .mk pat body => acts (scanArg rec (some pat) cwd r) ++ (body.map fun n => V n cwd r).toList := by
+          | .mk pat body => acts (scanArg rec true (some pat) cwd r) ++ (body.map fun n => V n cwd r).toList := by
   induction pats with
   | nil => simp [aCasePats]
   | cons p ps ih =>
@@ -115,7 +115,7 @@ theorem case_eq (wd : Option Word) (pats : List CasePat) (rs : List Redir) (cwd 
     V (.caseN wd pats rs) cwd r
       = supList (acts (aOptWord w rec h wd cwd r)
           ++ (pats.flatMap fun p => match p with
-                | .mk pat body => acts (scanArg rec (some pat) cwd r) ++ (body.map fun n => V n cwd r).toList)
+                | .mk pat body => acts (scanArg rec true (some pat) cwd r) ++ (body.map fun n => V n cwd r).toList)
           ++ acts (aRedirects w rec h rs cwd r)) := by
   simp only [verdict, aNode]
   rw [combine_or_allow, acts_append, acts_append, casePats_acts]
